@@ -375,7 +375,7 @@ void rfbDoCopyRegion(rfbScreenInfoPtr screen,sraRegionPtr copyRegion,int dx,int 
    char *in,*out;
 
    /* copy it, really */
-   i = sraRgnGetReverseIterator(copyRegion,dx<0,dy<0);
+   i = sraRgnGetReverseIterator(copyRegion,dx>0,dy>0);
    while(sraRgnIteratorNext(i,&rect)) {
      widthInBytes = (rect.x2-rect.x1)*bpp;
      out = screen->frameBuffer+rect.x1*bpp+rect.y1*rowstride;
